@@ -8,7 +8,15 @@ props = [json.loads(l)["id"] for l in open(os.path.join(root, "properties.jsonl"
 checks = []
 for pid in props:
     if pid not in CHECKS: continue
-    c = CHECKS[pid]
+    c = dict(CHECKS[pid])
+    # the evidence level is whatever the harness declares: keep the manifest in step
+    import re
+    src = open(os.path.join(root, "vkit", "checks", pid.lower(), "main.go")).read()
+    m = re.search(r'Level:\s*"(\w+)"', src)
+    lvl = m.group(1) if m else "exploration"
+    if lvl not in ("exploration", "fault_enumeration", "model_checking", "proof", "translation_validation", "other"):
+        lvl = "exploration"
+    c["level"] = lvl
     checks.append({
         "property_id": pid,
         "quick_cmd": "bin/check %s --tier quick" % pid,
